@@ -219,6 +219,19 @@ def writer_slots(repo: Repo, ci: ClassInfo, fn: ast.FunctionDef, helper: ClassIn
     ldefs.pop(wvar, None)
     if fvar:
         ldefs.pop(fvar, None)
+    # a local that abbreviates an attribute chain (`data = self.note_samples.bytes`) is read through where it is sliced / padded
+    # (`data[:96]`, `data.ljust(128, …)`); a bare `f.write(vol)`-style name is left alone (those name the envelope objects)
+    adefs = {k: v for k, v in single_defs(fn).items() if k not in (wvar, fvar) and isinstance(v, ast.Attribute)}
+    for c in calls:
+        if (norm(c.func.value) == wvar or (fvar is not None and norm(c.func.value) == fvar and c.func.attr == "write")) and c.args \
+                and not isinstance(c.args[0], ast.Name) and isinstance(c.args[0], (ast.Subscript, ast.Call)) \
+                and any(isinstance(x, ast.Name) and x.id in adefs for x in ast.walk(c.args[0])):
+            new_arg = resolve_names(c.args[0], adefs)
+            ast.copy_location(new_arg, c.args[0])
+            for sub in ast.walk(new_arg):
+                if not hasattr(sub, "lineno"):
+                    ast.copy_location(sub, c.args[0])
+            c.args[0] = new_arg
     for c in calls:
         if (norm(c.func.value) == wvar or (fvar is not None and norm(c.func.value) == fvar and c.func.attr == "write")) and c.args \
                 and any(isinstance(x, ast.Name) and x.id in ldefs for x in ast.walk(c.args[0])):
@@ -471,7 +484,10 @@ class LenEval:
                 if e.func.attr in ("values", "keys", "items") and not e.args:
                     return self.of(e.func.value, ci, env)
                 if e.func.attr in ("ljust", "rjust") and e.args:
-                    lo, hi = self.of(e.func.value, ci, env)
+                    try:
+                        lo, hi = self.of(e.func.value, ci, env)
+                    except Unknown:
+                        lo, hi = 0, INF           # whatever is padded, the result is at least the pad width long
                     n = repo.fold(e.args[0], ci=ci)
                     return (max(lo, n), max(hi, n))
                 if e.func.attr in ("copy",) and not e.args:
